@@ -18,11 +18,14 @@ import random
 GRAMMAR = r"""
 Model:   ('model' name=ID)? imports*=Import ('first' first=Def)? elems*=Elem;
 Import:  'import' importURI=STRING;
-Elem:    Pkg | Grp | Box | Def | Use | UseList;
+Elem:    Pkg | Grp | Box | Slot | Def | Use | UseList;
 Pkg:     'pkg' name=ID '{' ('head' head=DefB)? ('defs' defs+=Def ';')? elems*=Elem '}';
 Grp:     items+=Def['&'] ';';
 Box:     inner=Cell;
 Cell:    'cell' name=ID;
+Slot:    'slot' val=Value;
+Value:   Tag | Cell;
+Tag:     /t[0-9]+/;
 Def:     DefA | DefB;
 DefA:    'defa' name=ID ('extends' extends+=[Def:QName][','])?;
 DefB:    'defb' name=ID;
@@ -40,19 +43,27 @@ SLOTS = {
     "Pkg": [("head", False, "DefB"), ("defs", True, "Def"), ("elems", True, "Elem")],
     "Grp": [("items", True, "Def")],
     "Box": [("inner", False, "Cell")],
+    "Slot": [("val", False, "Value")],
     "Cell": [], "DefA": [], "DefB": [], "Use": [], "UseList": [],
+    "Plain": [],          # a plain value (Tag alternative of Value) held by Slot.val: not an object
 }
 ALLOWED = {"Import": ["Import"], "Def": ["DefA", "DefB"], "DefB": ["DefB"], "Cell": ["Cell"],
-           "Elem": ["Pkg", "Grp", "Box", "DefA", "DefB", "Use", "UseList"]}
+           "Value": ["Plain", "Cell"],
+           "Elem": ["Pkg", "Grp", "Box", "Slot", "DefA", "DefB", "Use", "UseList"]}
 REF_ATTR = {"Use": ("ref", False), "UseList": ("refs", True), "DefA": ("extends", True)}
-RULES = ["Model", "Import", "Elem", "Pkg", "Grp", "Box", "Cell", "Def", "DefA", "DefB", "Use", "UseList"]
+RULES = ["Model", "Import", "Elem", "Pkg", "Grp", "Box", "Cell", "Slot", "Value", "Def", "DefA", "DefB", "Use",
+         "UseList"]
 NAMED = {"Pkg": "p", "Cell": "c", "DefA": "a", "DefB": "b"}
+# replacement values a processor may return: an identifying string or a falsy (but not None) value
+FALSY = {"zero": 0, "empty": "", "list": [], "false": False, "tuple": (), "fzero": 0.0}
 SEPS = [" ", " ", " ", "\n", "  ", "\n  ", "\t", " # note\n", "\n\n"]
 
 
 def check_carrier(mm):
     """The table above is what the real metamodel says (containment attributes, order, types)."""
     for kind, slots in SLOTS.items():
+        if kind == "Plain":
+            continue
         cls = mm[kind]
         got = [(a.name, a.mult in ("0..*", "1..*"), a.cls.__name__) for a in cls._tx_attrs.values()
                if a.cont and a.cls.__name__ not in ("ID", "STRING")]
@@ -109,6 +120,8 @@ def render(scn, rng=None, plain=False):
     for i, o in enumerate(objs, 1):
         if o["kind"] in NAMED:
             o["name"] = NAMED[o["kind"]] * (1 if plain else rng.choice([1, 1, 2, 3])) + str(i)
+        elif o["kind"] == "Plain":
+            o["name"] = "t" + str(i)
         elif o["kind"] == "Model":
             o["name"] = "m" + str(o["file"]) if o.get("hdr") else ""
         else:
@@ -166,10 +179,16 @@ def render(scn, rng=None, plain=False):
             for j, k in enumerate(refs_of.get(i, [])):
                 if j:
                     t(sep)
-                txt = qname(refs[k])
+                name_ = qname(refs[k])
+                dot = "." if plain else w.rng.choice([".", ".", ".", " . ", " .", ". "])
+                txt = dot.join(name_.split("."))          # blanks inside a qualified name are part of its text
                 at = t(txt)
                 refs[k].update(start=at[0], len=len(txt), text=txt, line=at[1], col=at[2])
-                matches.append(dict(rule="QName", file=o["file"], text=txt, line=at[1], col=at[2]))
+                off = 0
+                for part in name_.split("."):
+                    matches.append(dict(rule="ID", file=o["file"], text=part, line=at[1], col=at[2] + off))
+                    off += len(part) + len(dot)
+                matches.append(dict(rule="QName", file=o["file"], text=name_, line=at[1], col=at[2]))
 
         spans = []
         if kind == "Model":
@@ -205,6 +224,12 @@ def render(scn, rng=None, plain=False):
             spans += kids("inner")
         elif kind == "Cell":
             t("cell"); name()
+        elif kind == "Slot":
+            t("slot")
+            spans += kids("val")
+        elif kind == "Plain":
+            at = t(o["name"])
+            matches.append(dict(rule="Tag", file=o["file"], text=o["name"], line=at[1], col=at[2]))
         elif kind == "DefA":
             t("defa"); name()
             if refs_of.get(i):
@@ -231,11 +256,14 @@ def render(scn, rng=None, plain=False):
         w = _Writer(rng, plain)
         emit(w, root)
         texts[f] = w.text() + ("" if plain else rng.choice(["", "\n", "  # end"]))
-    # matches whose text occurs once among all ID / QName matches of that rule (unambiguous fault sites)
+    # a match is identified by its rule, its text and its occurrence number among the matches of
+    # that rule with that text, counted in processing order: files in load order, text order within
+    matches.sort(key=lambda m: m["file"])       # stable: keeps the order of writing within a file
+    seen = {}
     for m in matches:
-        same = [x for x in matches if x["text"] == m["text"] or
-                (m["rule"] == "ID" and m["text"] in x["text"].split("."))]
-        m["unique"] = len(same) == 1
+        key = (m["rule"], m["text"])
+        seen[key] = seen.get(key, 0) + 1
+        m["occ"] = seen[key]
     out = dict(objs=objs, refs=refs, files=scn_files, texts=texts, matches=matches,
                procs=list(scn.get("procs", [])), repl=list(scn.get("repl", [])))
     return out
@@ -249,13 +277,15 @@ def spec_view(case, **extra):
         refs=[dict(owner=r["owner"], start=r["start"], len=r["len"], target=r["target"], sched=r["sched"])
               for r in case["refs"]],
         files=list(case["files"]), procs=list(case["procs"]), repl=list(case["repl"]),
-        fault=case.get("fault") or NO_FAULT)
+        replk=list(case.get("replk") or ["str"] * len(case["repl"])),
+        fault={k: v for k, v in (case.get("fault") or NO_FAULT).items() if k in NO_FAULT})
     d.update(extra)
     return d
 
 
-NO_FAULT = dict(on=False, proc="obj", obj=0, rule="", exc="txnoloc", wrap=False, sline=0, scol=0, snchar=0,
-                sfile="", mfile=1, mline=0, mcol=0)
+NO_FAULT = dict(on=False, proc="obj", obj=0, rule="", exc="txnoloc", wrap=False, hline=False, hcol=False,
+                hnchar=False, hfile=False, sline=0, scol=0, snchar=0, sfile="", mfile=1, mline=0, mcol=0)
+NONE_NUM, NONE_FILE = -2, "<none>"          # how the module writes Python's None
 
 
 # ---------------------------------------------------------------------------------- loading
@@ -265,6 +295,9 @@ class Ctx:
     def __init__(self, case, fault=None, user=False):
         self.case, self.fault, self.user = case, fault, user
         self.path2id = {o["path"]: i for i, o in enumerate(case["objs"], 1)}
+        self.plain_id = {o["name"]: i for i, o in enumerate(case["objs"], 1) if o["kind"] == "Plain"}
+        self.models = []              # every model of the load, in the order they were constructed
+        self.match_calls = 0
         self.nref = {}
         for r in case["refs"]:
             self.nref[r["owner"]] = self.nref.get(r["owner"], 0) + 1
@@ -334,10 +367,9 @@ def all_models(model):
     return get_included_models(model)
 
 
-def _all_linked(ctx, any_obj):
+def _all_linked(ctx):
     """Every reference of every model of the load holds its target object."""
-    from textx import get_model
-    for m in all_models(get_model(any_obj)):
+    for m in ctx.models:
         for o in walk(m):
             kind = type(o).__name__
             if kind not in REF_ATTR:
@@ -357,28 +389,31 @@ def _make_raise(fault):
         return ValueError("boom")
     kw = {}
     if fault["exc"] == "txsome":
-        if fault["sline"]:
+        if fault["hline"]:
             kw["line"] = fault["sline"]
-        if fault["scol"]:
+        if fault["hcol"]:
             kw["col"] = fault["scol"]
-        if fault["snchar"]:
+        if fault["hnchar"]:
             kw["nchar"] = fault["snchar"]
-        if fault["sfile"]:
+        if fault["hfile"]:
             kw["filename"] = fault["sfile"]
     return TextXSemanticError("boom", **kw)
 
 
 def _obj_processor(ctx, rule, replace):
     def proc(obj):
-        oid = ctx.path2id.get(obj_path(ctx, obj), 0)
-        linked = _all_linked(ctx, obj)
+        if _is_obj(obj):
+            oid = ctx.path2id.get(obj_path(ctx, obj), 0)
+        else:                       # a plain value in an attribute typed with an abstract rule
+            oid = ctx.plain_id.get(obj, 0) if isinstance(obj, str) else 0
+        linked = _all_linked(ctx)
         inited = all(id(u) in ctx.inited for u in ctx.created)
         ctx.calls.append(dict(obj=oid, rule=rule, linked=linked, inited=inited))
         f = ctx.fault
         if f and f["on"] and f["proc"] == "obj" and f["obj"] == oid and f["rule"] == rule:
             raise _make_raise(f)
         if replace:
-            return f"r:{rule}:{oid}"
+            return f"r:{rule}:{oid}" if replace == "str" else FALSY[replace]
         return None
     return proc
 
@@ -388,7 +423,9 @@ def _match_processor(ctx, rule):
 
     def proc(value):
         if value == f["mtext"]:
-            raise _make_raise(f)
+            ctx.match_calls += 1
+            if ctx.match_calls == f["mocc"]:
+                raise _make_raise(f)
         return value
     return proc
 
@@ -410,9 +447,16 @@ def _user_classes():
     return [mk("Pkg"), mk("DefA"), mk("Use")]
 
 
-def _metamodel(user, tools, fresh):
-    from textx import metamodel_from_str
+def _metamodel(user, tools, fresh, grammar_dir=None):
+    from textx import metamodel_from_file, metamodel_from_str
     key = (user, tools)
+    if grammar_dir:                 # the grammar itself comes from a file (classes then know a file name)
+        gp = os.path.join(grammar_dir, "carrier.tx")
+        with open(gp, "w") as f:
+            f.write(GRAMMAR)
+        mm = metamodel_from_file(gp, classes=_user_classes() if user else None, textx_tools_support=tools)
+        check_carrier(mm)
+        return mm
     if fresh or key not in _MM:
         mm = metamodel_from_str(GRAMMAR, classes=_user_classes() if user else None, textx_tools_support=tools)
         check_carrier(mm)
@@ -447,6 +491,10 @@ def _provider(ctx):
         def __init__(self):
             super().__init__(inner)
 
+        def load_models(self, model, encoding="utf-8"):
+            ctx.models.append(model)          # called once for every model right after its construction
+            return super().load_models(model, encoding=encoding)
+
         def __call__(self, obj, attr, obj_ref):
             key = (_file_no(ctx, get_model(obj)), obj_ref.position)
             k = ctx.refkey.get(key)
@@ -461,17 +509,18 @@ def _provider(ctx):
     return Sched()
 
 
-def load(case, workdir, procs=(), repl=(), fault=None, user=False, tools=False):
+def load(case, workdir, procs=(), repl=(), fault=None, user=False, tools=False, replk=None, grammar_file=False):
     """Load the rendered case with the real textX.  Returns an observation dict."""
     from textx import textxerror_wrap
     from textx.exceptions import TextXError
     ctx = Ctx(case, fault, user)
     _CUR[0] = ctx
-    mm = _metamodel(user, tools, fresh=bool(fault and fault["on"]))
+    mm = _metamodel(user, tools, fresh=bool(fault and fault["on"]), grammar_dir=workdir if grammar_file else None)
     mm.register_scope_providers({"*.*": _provider(ctx)})
+    kinds = dict(zip(repl, replk or ["str"] * len(repl)))
     table = {}
     for r in procs:
-        p = _obj_processor(ctx, r, r in repl)
+        p = _obj_processor(ctx, r, kinds.get(r))
         if fault and fault["on"] and fault["wrap"] and fault["proc"] == "obj" and fault["rule"] == r:
             p = textxerror_wrap(p)
         table[r] = p
@@ -497,10 +546,13 @@ def load(case, workdir, procs=(), repl=(), fault=None, user=False, tools=False):
         obs["ok"] = False
         if isinstance(e, TextXError):
             fn = e.filename
-            obs["err"] = dict(cls="TextXError", filename=os.path.basename(fn) if fn else "",
-                              line=e.line or 0, col=e.col or 0, nchar=e.nchar or 0)
+            obs["err"] = dict(cls="TextXError",
+                              filename=NONE_FILE if fn is None else os.path.basename(fn) if fn else fn,
+                              line=NONE_NUM if e.line is None else e.line,
+                              col=NONE_NUM if e.col is None else e.col,
+                              nchar=NONE_NUM if e.nchar is None else e.nchar)
         else:
-            obs["err"] = dict(cls="Other", filename="", line=0, col=0, nchar=0)
+            obs["err"] = dict(cls="Other", filename=NONE_FILE, line=NONE_NUM, col=NONE_NUM, nchar=NONE_NUM)
             obs["exc"] = f"{type(e).__name__}: {e}"
     obs["resolution"] = ctx.resolution
     if model is not None:
@@ -514,6 +566,16 @@ def load(case, workdir, procs=(), repl=(), fault=None, user=False, tools=False):
             obs["rdict"] = [[dict(start=k[0], end=k[1], obj=ctx.path2id.get(obj_path(ctx, v), 0))
                              for k, v in models[f]._pos_rule_dict.items()] for f in sorted(models)]
     return obs
+
+
+def _item(x):
+    """A replacement value in the vocabulary of the module."""
+    if isinstance(x, str) and x.startswith("r:"):
+        return x
+    for k, v in FALSY.items():
+        if type(x) is type(v) and x == v:
+            return "f:" + k
+    return "?" + repr(x)
 
 
 def project_final(ctx, models):
@@ -533,11 +595,15 @@ def project_final(ctx, models):
             for k, x in enumerate(vals):
                 step = f"{name}.{k}" if many else name
                 cpath = path + ("" if path.endswith(":") else "/") + step
+                pid = ctx.path2id.get(cpath, 0)
                 if _is_obj(x):
-                    items.append("o" + str(ctx.path2id.get(cpath, 0)))
+                    items.append("o" + str(pid))
                     visit(x, cpath)
+                elif pid and ctx.case["objs"][pid - 1]["kind"] == "Plain" and x == ctx.case["objs"][pid - 1]["name"]:
+                    items.append("o" + str(pid))           # the plain value itself, untouched
+                    out[pid - 1] = dict(reach=True, slots=[])
                 else:
-                    items.append(x if isinstance(x, str) else "?" + repr(x))
+                    items.append(_item(x))
             slots.append(items)
         out[oid - 1] = dict(reach=True, slots=slots)
 
@@ -585,7 +651,7 @@ def random_scenario(rng, max_objs=12, nfiles=1, max_refs=6, max_postpone=2):
         for _ in range(k):
             if budget() <= 2:
                 break
-            kind = rng.choice(["Pkg", "Grp", "Box", "DefA", "DefB", "Use", "UseList", "DefB", "Use"])
+            kind = rng.choice(["Pkg", "Grp", "Box", "Slot", "DefA", "DefB", "Use", "UseList", "DefB", "Use", "Slot"])
             if kind == "Pkg" and depth >= 3:
                 kind = "DefA"
             c = add(kind, i, "elems", file)
@@ -605,6 +671,8 @@ def random_scenario(rng, max_objs=12, nfiles=1, max_refs=6, max_postpone=2):
                 add(rng.choice(["DefA", "DefB"]), i, "items", file)
         elif kind == "Box":
             add("Cell", i, "inner", file)
+        elif kind == "Slot":
+            add(rng.choice(["Plain", "Plain", "Cell"]), i, "val", file)
 
     for f in range(1, nfiles + 1):
         limit[0] = max(len(objs) + 3, max_objs * f // nfiles)
@@ -616,6 +684,9 @@ def random_scenario(rng, max_objs=12, nfiles=1, max_refs=6, max_postpone=2):
         if rng.random() < 0.4:
             add(rng.choice(["DefA", "DefB"]), root, "first", f)
         fill_elems(root, f, 0)
+        if f > 1 and rng.random() < 0.7:       # imported models with several (postponable) references
+            for _ in range(rng.choice([2, 3])):
+                add("Use", root, "elems", f)
         add("DefB", root, "elems", f)          # every file can be referred to
     n = len(objs)
 
@@ -654,6 +725,6 @@ def relevant_rules(scn):
         decl = o["kind"] if o["parent"] == 0 else \
             dict((s[0], s[2]) for s in SLOTS[objs[o["parent"] - 1]["kind"]])[o["slot"]]
         for r in (o["kind"], decl):
-            if r not in out:
+            if r not in out and r != "Plain":
                 out.append(r)
     return out
